@@ -95,6 +95,73 @@ def handler_classes(h: ast.ExceptHandler):
     return may, must
 
 
+def exc_truth(test, ename, cls):
+    """Truth of a handler-local condition when the caught exception (bound to `ename`) is a KeyboardInterrupt (cls == KI) or an ordinary
+    Exception (cls == EX): True / False / None (does not depend on the class, or not recognised)."""
+    if isinstance(test, ast.UnaryOp) and isinstance(test.op, ast.Not):
+        v = exc_truth(test.operand, ename, cls)
+        return None if v is None else not v
+    if isinstance(test, ast.BoolOp):
+        vs = [exc_truth(v, ename, cls) for v in test.values]
+        if isinstance(test.op, ast.And):
+            return False if any(v is False for v in vs) else True if all(v is True for v in vs) else None
+        return True if any(v is True for v in vs) else False if all(v is False for v in vs) else None
+
+    def cls_of(e):
+        nm = e.attr if isinstance(e, ast.Attribute) else getattr(e, "id", None)
+        return {"KeyboardInterrupt": {KI}, "Exception": {EX}, "BaseException": {KI, EX}}.get(nm)
+    if ename and isinstance(test, ast.Call) and isinstance(test.func, ast.Name) and test.func.id == "isinstance" and len(test.args) == 2 \
+            and isinstance(test.args[0], ast.Name) and test.args[0].id == ename:
+        cs = [cls_of(e) for e in (test.args[1].elts if isinstance(test.args[1], ast.Tuple) else [test.args[1]])]
+        if any(c is not None and cls in c for c in cs):
+            return True
+        if all(c is not None for c in cs):
+            return False
+        return None
+    if ename and isinstance(test, ast.Compare) and len(test.ops) == 1 and isinstance(test.ops[0], (ast.Is, ast.IsNot, ast.Eq, ast.NotEq)) \
+            and ast.unparse(test.left) in (f"type({ename})", f"{ename}.__class__"):
+        c = cls_of(test.comparators[0])
+        if c is not None and len(c) == 1 and cls == KI:
+            # type(e) is KeyboardInterrupt: exact for KI (no subclasses of interest); for EX `type(e) is Exception` is unknown
+            v = cls in c
+            return v if isinstance(test.ops[0], (ast.Is, ast.Eq)) else not v
+    return None
+
+
+def handler_reraise(h: ast.ExceptHandler, cls):
+    """'always' / 'never' / 'maybe': does control leave handler `h` by raising when the caught exception is of class `cls`?
+    Conditions on the class of the bound exception are decided (exc_truth); every other condition may go either way."""
+    ename = h.name
+
+    def out(stmts):
+        res = set()
+        for s in stmts:
+            if isinstance(s, ast.Raise):
+                return res | {"raise"}
+            if isinstance(s, (ast.Return, ast.Break, ast.Continue)):
+                return res | {"exit"}
+            if isinstance(s, ast.If):
+                t = exc_truth(s.test, ename, cls)
+                o = set()
+                if t is not False:
+                    o |= out(s.body)
+                if t is not True:
+                    o |= out(s.orelse)
+                res |= o - {"next"}
+                if "next" not in o:
+                    return res
+                continue
+            if isinstance(s, (ast.Try, ast.With, ast.For, ast.While, ast.AsyncWith, ast.AsyncFor, ast.Match)):
+                if any(isinstance(x, ast.Raise) for x in ast.walk(s)):
+                    res.add("raise")        # nested control flow containing a raise: may raise
+                continue
+        return res | {"next"}
+    o = out(h.body)
+    if o == {"raise"}:
+        return "always"
+    return "never" if "raise" not in o else "maybe"
+
+
 class _Ctx:
     __slots__ = ("exc", "ret", "brk", "cont")
 
